@@ -12,6 +12,7 @@ CONSTANTS
   Delays <- NoDelay
   Weights <- Blend
   Surs = {0, 1}
+  CUs <- BaseCU
   NoDst = FALSE
   OkSubsets = FALSE
   NeedConsistent = FALSE
